@@ -1,5 +1,6 @@
 import N0Verif.Proofs.XPathListRoot
 import N0Verif.Proofs.XPathDeleteRec
+import N0Verif.Proofs.XPathFirst
 /-!
   String-level spellings of a path: prefix none / `/` / `//`, an index step attached (`a[0]`,
   `[0][1]`) or written as a separate step (`a/[0]`, `[0]/[1]`), and per index the spellings
@@ -625,12 +626,12 @@ theorem getCore_spelling_list (fuel : Nat) (cls : Cls) (xs : List Val) (lead : L
 
 /-! ### `first` -/
 
-/-- `first` returns what `_get` (with `return_lists=False`) returns unless that is a one-element list -/
-theorem first_of_getCore {fuel : Nat} {t : Val} {xp : Str} {d c : Val}
-    (h : getCore fuel t xp d false false = (t, .ok c)) (hc : ∀ cl x, c ≠ .list cl [x]) :
+/-- `first` returns the FOUND value `_get` (with `return_lists=False`) returns unless that is a one-element list
+(found: the same value for every default; `first` itself looks the path up with a private marker, fix C04-f) -/
+theorem first_of_getCore {fuel : Nat} {t : Val} {xp : Str} {c : Val}
+    (h : ∀ d, getCore fuel t xp d false false = (t, .ok c)) (hc : ∀ cl x, c ≠ .list cl [x]) (d : Val) :
     first fuel t xp d = (t, .ok c) := by
-  unfold first
-  rw [h]
+  rw [first_of_found h d]
   cases c with
   | list cl ys =>
     cases ys with
@@ -642,11 +643,10 @@ theorem first_of_getCore {fuel : Nat} {t : Val} {xp : Str} {d c : Val}
   | _ => rfl
 
 /-- … and a one-element list is unwrapped -/
-theorem first_of_getCore_single {fuel : Nat} {t : Val} {xp : Str} {d x : Val} {cl : Cls}
-    (h : getCore fuel t xp d false false = (t, .ok (.list cl [x]))) :
+theorem first_of_getCore_single {fuel : Nat} {t : Val} {xp : Str} {x : Val} {cl : Cls}
+    (h : ∀ d, getCore fuel t xp d false false = (t, .ok (.list cl [x]))) (d : Val) :
     first fuel t xp d = (t, .ok x) := by
-  unfold first
-  rw [h]
+  rw [first_of_found h d]; rfl
 
 /-! ### `delete` on a rendered spelling -/
 
